@@ -359,8 +359,8 @@ def configs(tier, seed):
                  fulllen=4, parts=[(seed % 32, 32)], need=SHAPES),
             dict(cfg="Connect_hier.cfg", what="two-level family: <=2 clauses all, 3 clauses 1/16", hier=True, leaf=True,
                  fulllen=3, parts=[(seed % 16, 16)], need=SHAPES + ["hier", "strict-gap"]),
-            dict(cfg="Connect_layouts.cfg", what="connector layouts: <=1 clause all, 2 clauses 1/4", hier=True, leaf=True,
-                 fulllen=2, parts=[(seed % 4, 4)], need=["fresh", "hier"]),
+            dict(cfg="Connect_layouts.cfg", what="connector layouts: <=1 clause all, 2 clauses 1/8", hier=True, leaf=True,
+                 fulllen=2, parts=[(seed % 8, 8)], need=["fresh", "hier"]),
         ]
     return [
         dict(cfg="Connect_quick.cfg", what="one-level family: ALL programs of <= 4 clauses", hier=False, leaf=False,
